@@ -41,8 +41,14 @@ def programs(tier):
     for e in chains(a) + non_assignable(a) + [('cond', c, ('mem', a, 'x'), ('mem', b, 'y')), ('cond', c, ('mem', a, 'x'), L('int', '1', 1)),
                                               ('cond', ('mem', c, 'k'), ('idx', a, d), b)]:
         progs.append({'wxml': '<input model:value="{{ %s }}"/>' % esc(M.pr(e)), 'site': 'model', 'expr': e, 'env': {}})
+    # a conditional with a tail: `(c ? a : b).z` is the path of `a.z` or of `b.z` (also nested conditionals and dynamic tails)
+    ck = ('cond', c, a, b)
+    for e in [('mem', ck, 'z'), ('idx', ('mem', ck, 'rows'), d), ('mem', ('idx', ck, d), 'w'), ('mem', ('cond', c, ('mem', a, 'x'), b), 'z'),
+              ('mem', ('cond', c, ('cond', d, a, b), ('id', 'e')), 'z'), ('mem', ('cond', c, a, ('cond', d, b, ('id', 'e'))), 'z')]:
+        progs.append({'wxml': '<input model:value="{{ %s }}"/>' % esc(M.pr(e)), 'site': 'model', 'expr': e, 'env': {}})
     # wx:for lists and items
-    for le in chains(('id', 'l')) + [('call', ('id', 'f'), [a]), ('arr', [a, b]), ('cond', c, ('mem', ('id', 'l'), 'x'), ('id', 'm'))]:
+    for le in chains(('id', 'l')) + [('call', ('id', 'f'), [a]), ('arr', [a, b]), ('cond', c, ('mem', ('id', 'l'), 'x'), ('id', 'm')),
+                                     ('mem', ('cond', c, ('id', 'l'), ('id', 'm')), 'list')]:
         for ie in [('id', 'item'), ('mem', ('id', 'item'), 'x'), ('idx', ('id', 'item'), a), ('id', 'index'), ('bin', '+', ('id', 'item'), L('int', '1', 1))]:
             progs.append({'wxml': '<block wx:for="{{ %s }}"><input model:value="{{ %s }}"/></block>' % (esc(M.pr(le)), esc(M.pr(ie))),
                           'site': 'for+model', 'list': le, 'expr': ie, 'env': {}})
@@ -80,9 +86,8 @@ def emitted_path(it, v):
     if v is UNDEFINED or v is NULL or v is None:
         return None
     if isinstance(v, JArr):
-        if any(x is HOLE_PY for x in v.items):
-            raise JsUnsupported('hole in a path array')
-        return list(v.items)
+        # an elision in a path array is a segment `undefined` (never the path of anything): compared like any other wrong segment
+        return [UNDEFINED if x is HOLE_PY else x for x in v.items]
     if isinstance(v, ArrLit):
         if len(v.segs) == 1 and v.segs[0][0] == 'elems':
             return list(v.segs[0][1])
